@@ -330,6 +330,11 @@ func C13(r *vf.Run) {
 			switch kindSel {
 			case 0: // real RAM with an attach offset equal to start
 				m.data = g.Bytes(int(end - start + 1))
+				if g.Intn(3) == 0 {
+					// a fresh chip: all zeroes, like every other fresh chip of its size
+					m.data = make([]byte, end-start+1)
+					cells["attach:zeroed-ram"]++
+				}
 				m.offset = start
 				m.mem = memory.NewRAM(m.data, start)
 			case 1: // real ROM
@@ -390,6 +395,36 @@ func C13(r *vf.Run) {
 			ranges = append(ranges, [2]uint32{start, end})
 			cells["attach:"+shape]++
 			probeAround(start, end, "after "+hist[len(hist)-1])
+			// twin chips: a second device that looks exactly like the one just attached (same kind, same
+			// size, same offset, same - blank - contents, same name) goes right behind it. It is another
+			// device all the same.
+			if m.data != nil && !m.rom && end-start < 0x4000 && end+1+(end-start) <= 0xFFFFFF && g.Intn(3) == 0 {
+				span := end - start + 1
+				a := &c13mem{data: make([]byte, 2*span), offset: start}
+				a.mem = memory.NewRAM(a.data, start)
+				t := &c13mem{data: make([]byte, 2*span), offset: start}
+				t.mem = memory.NewRAM(t.data, start)
+				mems = append(mems, a, t)
+				ia, it := len(mems)-2, len(mems)-1
+				if b.Attach(a.mem, "ram", start, end) == nil && b.Attach(t.mem, "ram", end+1, end+span) == nil {
+					hist = append(hist, fmt.Sprintf("Attach(blank RAM mem%d,$%06x,$%06x); Attach(identical-looking blank RAM mem%d,$%06x,$%06x)", ia, start, end, it, end+1, end+span))
+					for k := sb; k <= eb; k++ {
+						shadow[k] = ia
+					}
+					for k := (end + 1) >> 4; k <= (end+span)>>4; k++ {
+						shadow[k] = it
+					}
+					ranges = append(ranges, [2]uint32{end + 1, end + span})
+					cells["attach:twin-chips"]++
+					// a write into the second window must land in the second chip
+					wa := end + 1 + uint32(g.Intn(int(span)))
+					if !write(b, wa, 0x5A) && (t.data[wa-start] != 0x5A || a.data[wa-start] == 0x5A) {
+						r.Fail("routing-write", fmt.Sprintf("write $%06x <- 5a: window of the second of two identical-looking blank RAMs; the byte went to the first (or nowhere)", wa), hist)
+						return
+					}
+					probeAround(end+1, end+span, "after attaching twin chips")
+				}
+			}
 		}
 		if ci < 3 {
 			r.Sample(hist)
